@@ -861,6 +861,8 @@ pub struct UdpClient {
     pub dport: u16,
     pub msgs: Vec<(u64, Message)>,
     pub ttl: u8,
+    /// over IPv4 the sender may leave the UDP checksum out (field 0)
+    pub no_csum: bool,
 }
 
 impl UdpClient {
@@ -878,10 +880,15 @@ impl UdpClient {
             dport: rng.edge_port(),
             msgs,
             ttl: rng.range(1, 255) as u8,
+            no_csum: !v6 && rng.chance(1, 10),
         }
     }
     pub fn datagram(&self, payload: &[u8]) -> Vec<u8> {
-        let u = udp(self.sport, self.dport, payload, &self.a.src, &self.a.dst);
+        let mut u = udp(self.sport, self.dport, payload, &self.a.src, &self.a.dst);
+        if self.no_csum && matches!(self.a.src, IpAddr::V4(_)) {
+            u[6] = 0;
+            u[7] = 0;
+        }
         frame_ip(&self.a.dmac, &self.a.smac, &self.a.src, &self.a.dst, P_UDP, &u, self.ttl)
     }
 }
@@ -1512,6 +1519,7 @@ impl UdpClient {
                 dport: self.dport,
                 msgs: self.msgs.clone(),
                 ttl: self.ttl,
+                no_csum: self.no_csum,
             };
             let is6 = matches!(t.a.src, IpAddr::V6(_));
             match rng.below(4) {
@@ -1539,6 +1547,7 @@ impl UdpClient {
             dport: rng.edge_port(),
             msgs: self.msgs.clone(),
             ttl: self.ttl,
+            no_csum: self.no_csum,
         }
     }
 }
